@@ -614,6 +614,89 @@ pub fn eval_disk(d: &Disk) -> Eval {
     e
 }
 
+/// Long clip histories: a box shaved `steps` times by half-spaces that each remove the four (or, in the round-robin
+/// variant, the four on that axis) vertices created earlier, so the cell keeps 8 vertices and 6 faces while its list of
+/// clipping planes (which never shrinks) and the number of boundary reconstructions grow beyond 2^16. At check points
+/// the clip is repeated on copies whose vertices are stored in reversed and rotated order / with rotated plane triples.
+pub fn eval_c18_long(item: &(usize, bool)) -> Eval {
+    let (steps, round_robin) = *item;
+    let mut e = Eval::default();
+    let id = format!("box shaved {} times ({})", steps, if round_robin { "x, y, z in turn" } else { "along x" });
+    let rp = || format!("check=c18-long\nsteps={}\nround_robin={}\n", steps, round_robin);
+    let r = guarded(|| {
+        let gens = [v3(0.25, 0.25, 0.25)];
+        let mut cc = ClipCell::init(&gens, 0, DVec3::ZERO, DVec3::ONE, meshless_voronoi::Dimensionality::ThreeD, false);
+        let dx = 0.5 / steps as f64;
+        let mut hi = if round_robin { [0.95f64; 3] } else { [0.95f64, 1., 1.] };
+        let mut issues: Vec<(String, String)> = vec![];
+        let mut sig = Fnv::new();
+        for step in 0..steps {
+            let ax = if round_robin { step % 3 } else { 0 };
+            hi[ax] -= dx;
+            let mut n = DVec3::ZERO;
+            set_comp(&mut n, ax, -1.);
+            let mut p = v3(0.3, 0.3, 0.3);
+            set_comp(&mut p, ax, hi[ax]);
+            let check_now = step % 4096 == 4095 || (step + 64 >= 65536 && step <= 65536 + 64) || step + 1 == steps;
+            let before = if check_now { Some(cc.clone()) } else { None };
+            cc.clip(meshless_voronoi::HalfSpace::new(n, p, None, None));
+            if cc.cell.clipping_planes.len() != 7 + step {
+                issues.push(("clip-history-plane-count".into(), format!("step {}: {} clipping planes", step, cc.cell.clipping_planes.len())));
+                break;
+            }
+            if let Some(base) = before {
+                let canon = canonical(&cc);
+                if let Some(m) = closedness(&canon) {
+                    issues.push(("not-closed-after-long-history".into(), format!("step {}: {}", step, m)));
+                    break;
+                }
+                if cc.cell.vertices.len() != 8 {
+                    issues.push(("vertex-count-after-long-history".into(), format!("step {}: {} vertices", step, cc.cell.vertices.len())));
+                    break;
+                }
+                let vol = volume(&cc);
+                let want = hi[0] * hi[1] * hi[2];
+                if !((vol - want).abs() <= 1e-9) {
+                    issues.push(("volume-after-long-history".into(), format!("step {}: volume {:e}, expected {:e}", step, vol, want)));
+                    break;
+                }
+                // storage orders: reversed, rotated by 3, plane triples rotated
+                for variant in 0..3 {
+                    let mut alt = base.clone();
+                    match variant {
+                        0 => alt.cell.vertices.reverse(),
+                        1 => alt.cell.vertices.rotate_left(3),
+                        _ => {
+                            for v in alt.cell.vertices.iter_mut() {
+                                v.dual = [v.dual[1], v.dual[2], v.dual[0]];
+                            }
+                        }
+                    }
+                    alt.clip(meshless_voronoi::HalfSpace::new(n, p, None, None));
+                    if canonical(&alt) != canon {
+                        issues.push(("storage-order-changes-result-after-long-history".into(), format!("step {}: variant {}", step, variant)));
+                    }
+                }
+                sig.u64(canon.len() as u64);
+            }
+        }
+        (issues, sig.finish())
+    });
+    e.impl_runs += steps as u64;
+    e.transitions += steps as u64;
+    match r {
+        Err(p) => e.issue(format!("panic:{}", p.msg.chars().take(70).collect::<String>()), &id, format!("clip panicked at {}: {}", p.site, p.msg), rp()),
+        Ok((issues, sig)) => {
+            for (c, d) in issues {
+                e.issue(c, &id, d, rp());
+            }
+            e.sig = sig;
+        }
+    }
+    e.nontrivial = true;
+    e
+}
+
 pub fn run_c18(run: &mut Run) {
     let thorough = run.thorough();
     THOROUGH.store(thorough, std::sync::atomic::Ordering::Relaxed);
@@ -688,6 +771,12 @@ pub fn run_c18(run: &mut Run) {
         }
         run.family("m-sided prism + neighbour above (one clip removes m vertices) and axis pair + ring of m (face with m vertices), builder's own clip sequence".to_string(), items.len() as u64);
         run.explore(&items, eval_c18, |i| J::s(i.0.id.clone()));
+    }
+    // long clip histories of one cell (more than 2^16 clipping planes / boundary reconstructions)
+    {
+        let items: Vec<(usize, bool)> = if thorough { vec![(70_000, false), (70_000, true), (140_000, true)] } else { vec![(70_000, false), (70_000, true)] };
+        run.family("long clip histories: a box shaved 70000 times (along x / x, y, z in turn); closedness, volume and storage-order independence at check points".to_string(), items.len() as u64);
+        run.explore(&items, eval_c18_long, |i| J::s(format!("{} steps, round robin {}", i.0, i.1)));
     }
     // part B
     let disks = enumerate_disks(if thorough { 7 } else { 6 });
